@@ -370,6 +370,79 @@ def run(ctx):
             r7.bad('binding-writer|%s' % short, '%s writes or mutably borrows IoInterface.bindings: outside the bind functions the table must only be read (a take / clear that is not undone on an error exit leaves every later cycle without input latching and output encoding, silently)' % short,
                    loc='%s:%d' % (fx.fns[k]['file'], fx.fns[k]['line']))
 
+    # ------------------------------------------------------------------ R8 every driver / every binding, every cycle
+    # (a) the driver loops of the two cycle I/O functions exchange with every driver in every iteration;
+    # (b) in the image <-> variable passes the only thing that may decide to skip a binding is the binding itself
+    #     (its address area): a skip that depends on state of the interface (a cache of the last image, a health flag)
+    #     leaves "variable = decode(latched bytes)" / "bytes = encode(variable)" false for that cycle
+    r8 = ctx.rule('C07.R8', 'every cycle exchanges with every driver and moves every bound variable: no iteration of the driver loops avoids the driver call, and a binding is skipped only on its own address area', floor=4, floor_what='loops')
+    from ..dep import deps as _deps
+
+    def _loop_with(fn, blocks):
+        for c in fn.sccs():
+            if len(c) > 1 and any(b in c for b in blocks):
+                return set(c)
+        return None
+    for fid, callee, what in ((CY + 'read_cycle_inputs', r'io::IoDriver::read_inputs$', 'read_inputs'), (CY + 'write_cycle_outputs', r'io::IoDriver::write_outputs$', 'write_outputs')):
+        rec = fx.fns.get(fid)
+        r8.saw()
+        short = fid.split('::')[-1]
+        if rec is None:
+            r8.bad('anchor-missing|%s' % short, '%s not found' % short)
+            continue
+        fn = F(rec)
+        calls = fn.blocks_calling(lambda n: re.search(callee, n) is not None)
+        lp = _loop_with(fn, calls)
+        if not calls or lp is None:
+            r8.bad('every-driver|%s' % short, '%s has no loop calling the driver\'s %s (shape not recognised)' % (short, what), loc=fn.loc(0))
+            continue
+        nexts = [b for b in lp if (fn.call_name(b) or '').endswith('::next')]
+        if nexts and not any(any(n in c for n in nexts) for c in fn.sccs(removed_nodes=set(calls) | {b for b in fn.g if b not in lp})):
+            r8.ok('every-driver|%s' % short, loc=fn.loc(calls[0]))
+        else:
+            r8.bad('every-driver|%s' % short, 'an iteration of the driver loop in %s can finish without calling the driver\'s %s: that driver\'s cycle is no longer read-then-write, its outputs (or inputs) are those of an earlier cycle' % (short, what), loc=fn.loc(calls[0]))
+    IOI = 'trust_runtime::io::IoInterface::'
+    for fid, mover, what in ((IOI + 'read_inputs', r'io::IoInterface::read$', 'decoded into its variable'), (IOI + 'write_outputs', r'io::IoInterface::write$', 'encoded into the image')):
+        rec = fx.fns.get(fid)
+        r8.saw()
+        short = fid.split('::')[-1]
+        if rec is None:
+            r8.bad('anchor-missing|IoInterface::%s' % short, 'IoInterface::%s not found' % short)
+            continue
+        fn = F(rec)
+        moves = fn.blocks_calling(lambda n: re.search(mover, n) is not None)
+        lp = _loop_with(fn, moves)
+        if not moves or lp is None:
+            r8.bad('skip-on-area-only|%s' % short, 'IoInterface::%s has no loop over the bindings around the image access (shape not recognised)' % short, loc=fn.loc(0))
+            continue
+        nexts = {b for b in lp if (fn.call_name(b) or '').endswith('::next')}
+        offending = None
+        for b in sorted(lp):
+            t = fn.term(b)
+            if t['k'] != 'switch':
+                continue
+            succ = [x for x in fn.g.get(b, ()) if x in lp]
+            if len(succ) < 2:
+                continue
+            skips = [x for x in succ if any(n in fn.reach([x], avoid=set(moves) | {y for y in fn.g if y not in lp}) for n in nexts)]
+            # a deciding test: one outcome can reach the next iteration without the move, another cannot
+            if not skips or len(skips) == len(succ):
+                continue
+            if not any(m_ in fn.reach([b]) for m_ in moves):
+                continue        # after the move: what happens with the moved value, not whether it moves
+            if any(fn.dominates(m_, b) for m_ in moves):
+                continue
+            d = _deps(fn, t['d'])
+            flds = {f for f in d.fields}
+            foreign = sorted(f.split('::')[-1] for f in flds if not re.search(r'IoAddress\.|IoBinding\.|IoInterface\.bindings$|option::Option\.0$', f))
+            if foreign:
+                offending = (b, foreign)
+                break
+        if offending:
+            r8.bad('skip-on-area-only|%s' % short, 'IoInterface::%s decides to skip a binding on %s, which is not a property of the binding: in a cycle where that state says "skip", a bound variable is not %s although the image was latched / the variable was computed' % (short, offending[1][:3], what), loc=fn.loc(offending[0]))
+        else:
+            r8.ok('skip-on-area-only|%s' % short, loc=fn.loc(moves[0]))
+
 
 def _type_rows(fx, fid, inner_is_value=True):
     """{TYPE: set(of (pattern value variants), (constructed value variants))} from a match on TypeId consts with nested value matches"""
